@@ -10,6 +10,7 @@ CONSTANTS
   PurgeAt <- PurgeAlways
   DropReopenedWindow = TRUE
   SnapshotConsumedOnLoad = TRUE
+  ClearRevertedColumn = TRUE
 INIT WInit
 NEXT WNext
 VIEW wview
